@@ -165,6 +165,12 @@ def shrink_ast(ast):
 
 
 def shrink_env(env):
+    if env.get("tape"):
+        yield dict(env, tape=[])  # "lowest runnable core first" everywhere
+        t = env["tape"]
+        for cut in (len(t) // 2, len(t) - 1):
+            if 0 < cut < len(t):
+                yield dict(env, tape=t[:cut])
     if env.get("stall"):
         yield dict(env, stall=False)
     if env.get("burst"):
